@@ -19,17 +19,19 @@ import (
 	"github.com/jamespfennell/gtfs"
 )
 
-var c11Dates = []string{"20240101", "20240105", "20240110", "20240120", "20240131", "2024-01-10", ""}
+var c11Dates = []string{"20240201", "20240205", "20240229", "20240301", "20240331", "2024-01-10", ""}
 var c11DateNames = []string{"before", "start", "inside", "end", "after", "unparseable", "blank"}
 
 // c11RangeSets: the s1 range and the five probe dates; the second set sits on the days on
 // which zones east of UTC switch daylight saving time (the switch precedes UTC midnight there)
 var c11RangeSets = [][]string{
-	{"20240101", "20240105", "20240110", "20240120", "20240131"},
+	{"20240201", "20240205", "20240229", "20240301", "20240331"}, // the leap day lies inside the range
 	{"20240407", "20240409", "20240601", "20241006", "20241007"},
 	// far from the present: before 1678 and after 2262 an instant no longer fits int64 nanoseconds
 	// (open-ended calendars are commonly written with end_date 99991231)
 	{"00010102", "16770101", "22620412", "99991230", "99991231"},
+	{"20240407", "20240601", "20240908", "20240909", "20241001"}, // America/Santiago: back on 7 April, forward at 00:00 on 8 September 2024
+	{"20240301", "20240310", "20240311", "20241103", "20241104"}, // America/Havana: forward at 00:00 on 10 March 2024
 }
 
 // c11ZoneDateCombos: every zone with the January dates; the southern switch days and the far
@@ -41,6 +43,8 @@ var c11ZoneDateCombos = []struct {
 	{"America/New_York", 0}, {"Europe/London", 0}, {"Mars/Phobos", 0}, {"Australia/Sydney", 0}, {"Australia/Lord_Howe", 0}, {"Japan", 0}, {"EST5EDT", 0},
 	{"America/New_York", 1}, {"Australia/Sydney", 1}, {"Australia/Lord_Howe", 1},
 	{"America/New_York", 2}, {"Australia/Sydney", 2}, {"Japan", 2},
+	// a zone that springs forward at local midnight, with its switch days (the day then starts at 01:00)
+	{"America/Santiago", 3}, {"America/Havana", 4},
 }
 
 func c11Harness(maxRows int) Harness {
@@ -200,7 +204,7 @@ func init() {
 	register(&Check{
 		ID:    "C11",
 		Level: "model_checking",
-		Rule: "full product: calendar.txt {s1, empty, absent, s1+s2, s1 twice, s1 as a one-day service}; service ids beginning with #; x 0..2 (thorough 0..3) exception rows over 3 services x 7 dates (before/start/inside/end/after the s1 range, unparseable, blank) x 3 exception types x 13 (zone of the first agency, date set) combinations: New_York, London, unknown, Sydney, Lord_Howe, Japan, EST5EDT (names without a slash) with January dates; New_York, Sydney, Lord_Howe with the southern DST switch days; New_York, Sydney, Japan with dates in the years 1, 1677, 2262 and 9999 x map iteration starts 0, 1, 2 at every library range; " +
+		Rule: "full product: calendar.txt {s1, empty, absent, s1+s2, s1 twice, s1 as a one-day service}; service ids beginning with #; x 0..2 (thorough 0..3) exception rows over 3 services x 7 dates (before/start/inside/end/after the s1 range, unparseable, blank) x 3 exception types x 15 (zone of the first agency, date set) combinations: New_York, London, unknown, Sydney, Lord_Howe, Japan, EST5EDT (names without a slash) with dates around the leap day 2024-02-29; New_York, Sydney, Lord_Howe with the southern DST switch days; New_York, Sydney, Japan with dates in the years 1, 1677, 2262 and 9999; America/Santiago and America/Havana (daylight saving time starts at local midnight) with their switch days x map iteration starts 0, 1, 2 at every library range; " +
 			"non-trivial = distinct archives with at least one exception row; oracle = reference merge (all admissible readings) + direct invariants (unique ids, start <= exception <= end)",
 		Assumptions: []string{"two calendar rows with one id: either row may win", "an exception row with an unsupported type creates nothing, adds no date, and may or may not widen an existing range"},
 		Scenarios: func(tier string) []*Scenario {
